@@ -543,6 +543,10 @@ def step (toks : List String) : String :=
     let a := parseGenH b1
     let b := parseGenH b2
     s!"{showBool (canSwapGeneric a b)} {showBool (canSwapGeneric b a)} {showBool (hamEqGeneric a b)} {flOpt (relativeWeightGeneric a b (parseSlots s1))} {flOpt (relativeWeightGeneric b a (parseSlots s2))}"
+  | ["hist", _k, _n, t, sf, mf] =>
+    -- cadence of the drivers (C17): a tempering step at every multiple of `sf`, a sample at every
+    -- multiple of `mf`, up to `t`
+    s!"{parseNat t / parseNat sf} {parseNat t / parseNat mf}"
   | ["mismatch", e1, g1, h1, n1, e2, g2, h2, n2] =>
     let a := isingKind.parse [e1, g1, h1, n1]
     let b := isingKind.parse [e2, g2, h2, n2]
